@@ -6,10 +6,24 @@
    wrappers.  "Going wrong" = the run ends in OErr (EInternal _) (an
    ErrInternal-wrapped error) or OErr (EHostCrash _) (a Go panic).
 
-   STATUS.  Proved for the Stage-1 fragment [s1_program] (no maps, no user
-   functions / handlers, `any` only as the type of a variable or of an
-   argument wrapper, never inside an array): C02_soundness_partial,
-   C02_preservation_partial.  The full statement [soundness_full] is REFUTED
+   STATUS.  Two fragments of the language are proved, both for every program,
+   every fuel and every well-typed start state:
+   - [s1_program] (strict): everything of [s2_program] with `any` never inside
+     a composite type ([]any, {}any, [][]any ... do not occur; `any` variables,
+     any-wrapped arguments and type assertions do).  C02_soundness_partial: NO
+     run ends in an internal error or a host crash.
+   - [s2_program]: literals, variables, unary/binary operators, arrays and maps
+     of every value type (literals, index, slice, dot, concatenation,
+     repetition, ==), any-wrapping and type assertion, declarations, assignment
+     to variables / array elements / map entries (index and dot targets),
+     calls of the modelled built-ins (print sprint read cls sleep len has del
+     typeof str2num str2bool exit panic join startswith endswith min max abs
+     sqrt and the simple graphics calls), if / else, while, for over step
+     ranges, arrays, strings and maps, break.  C02_soundness_modulo_overflow_partial:
+     no run ends in an internal error, and the only host crash is the stack
+     overflow of String/Equals/deepCopy on a value that contains itself.
+   Outside both: user functions, return, event handlers, the test built-in and
+   the un-modelled built-ins.  The full statement [soundness_full] is REFUTED
    on the model (and on the implementation): C02_soundness_full_refuted. *)
 From Coq Require Import ZArith NArith List String Bool.
 From EvyV Require Import Base Num Ast Omap Sem Static SemSound.
@@ -19,66 +33,62 @@ Open Scope Z_scope.
 (* ---------- the full statements (NOT proved; the first one is false) ---------- *)
 Definition soundness_full : Prop :=
   forall P, wt_program P = true ->
-  forall fuel s0, state_ok s0 -> ~ goes_wrong (fst (run_program fuel P s0)).
+  forall fuel s0, state_ok true s0 -> ~ goes_wrong (fst (run_program fuel P s0)).
 
-(* what remains plausible for the whole language once wt also orders calls
-   after the declarations of the globals their bodies assign: no internal
-   error, and the only host crash is the exhaustion of the host stack by a
-   value that contains itself (print / == / array repetition on a cyclic
-   []any or {}any).  Not proved (Stage 2). *)
-Definition overflow_reason (w : str) : Prop :=
-  w = s_ "stack overflow in String" \/ w = s_ "stack overflow in Equals" \/
-  w = s_ "stack overflow in deepCopy" \/ w = s_ "stack overflow in same".
-
+(* what remains plausible for the whole language: no internal error, and the
+   only host crash is the exhaustion of the host stack by a value that
+   contains itself (SemSound.overflow_reason).  Proved below for s2_program. *)
 Definition soundness_modulo_overflow_full (wt' : program -> bool) : Prop :=
   forall P, wt' P = true ->
-  forall fuel s0, state_ok s0 ->
-    match fst (run_program fuel P s0) with
-    | OErr (EInternal _) => False
-    | OErr (EHostCrash w) => overflow_reason w
-    | _ => True
-    end.
+  forall fuel s0, state_ok false s0 -> ~ goes_wrong_badly (fst (run_program fuel P s0)).
 
-(* ---------- proved: soundness on the Stage-1 fragment ---------- *)
-(* for EVERY program, EVERY fuel and EVERY well-typed start state *)
+(* ---------- proved: soundness on the strict fragment ---------- *)
 Theorem C02_soundness_partial : forall P,
   wt_program P = true -> s1_program P = true ->
-  forall fuel s0, state_ok s0 -> ~ goes_wrong (fst (run_program fuel P s0)).
+  forall fuel s0, state_ok true s0 -> ~ goes_wrong (fst (run_program fuel P s0)).
 Proof. exact soundness_stage1. Qed.
 Print Assumptions C02_soundness_partial.
 
-(* the start states of Evaluator.Eval are well typed, whatever the stop point,
-   the input, and the two flags *)
-Theorem C02_init_state_ok : forall stop input failfast after_yield,
-  state_ok (init_state stop input failfast after_yield).
+(* ---------- proved: soundness modulo stack overflow on the wide fragment ---------- *)
+Theorem C02_soundness_modulo_overflow_partial : forall P,
+  wt_program P = true -> s2_program P = true ->
+  forall fuel s0, state_ok false s0 -> ~ goes_wrong_badly (fst (run_program fuel P s0)).
+Proof. exact soundness_stage2. Qed.
+Print Assumptions C02_soundness_modulo_overflow_partial.
+
+(* the start states of Evaluator.Eval are well typed (for both fragments), whatever
+   the stop point, the input, and the two flags *)
+Theorem C02_init_state_ok : forall strict stop input failfast after_yield,
+  state_ok strict (init_state stop input failfast after_yield).
 Proof. exact init_state_ok. Qed.
 Print Assumptions C02_init_state_ok.
 
-(* ---------- proved: preservation on the Stage-1 fragment ---------- *)
+(* ---------- proved: preservation (both fragments: strict = true / false) ---------- *)
 (* under a store typing S (cell ↦ dynamic type) that types the heap and the
    environment, an expression of static type t evaluates — if it returns — to a
    cell of dynamic type t under an extension of S that still types heap and
-   environment; it never ends in an internal error or a host crash *)
-Theorem C02_preservation_partial : forall n P e x G t S s,
-  ety (p_funcs P) G x = Some t -> s1_expr x = true -> genv_ok G -> inv S G e s ->
+   environment; an error is never internal and is a host crash only for
+   strict = false and a stack overflow on a cyclic value *)
+Theorem C02_preservation_partial : forall strict n P e x G t S s,
+  ety (p_funcs P) G x = Some t -> s1_expr strict x = true -> genv_ok G -> inv strict S G e s ->
   match eval_expr n P e x s with
-  | (Ok l, s') => exists S', ext S S' /\ inv S' G e s' /\ sfind S' l = Some t
-  | (Er er, _) => safe_err er
+  | (Ok l, s') => exists S', ext S S' /\ inv strict S' G e s' /\ sfind S' l = Some t
+  | (Er er, _) => safe_err strict er
   end.
-Proof. exact preservation_stage1. Qed.
+Proof. exact preservation_generic. Qed.
 Print Assumptions C02_preservation_partial.
 
 (* a value stored in an any carries a concrete non-any type, and its content
    has exactly that dynamic type; any-cells occur only at type any *)
-Theorem C02_any_cells_concrete : forall S h l,
-  heap_ok S h -> sfind S l = Some TAny ->
+Theorem C02_any_cells_concrete : forall strict S h l,
+  heap_ok strict S h -> sfind S l = Some TAny ->
   exists u i v, hget h l = Some (HAny u i) /\ u <> TAny /\ sfind S i = Some u /\
                 hget h i = Some v /\ cell_ok S v u.
 Proof. exact any_cells_concrete. Qed.
 Print Assumptions C02_any_cells_concrete.
 
-Theorem C02_any_cells_only_at_any : forall S h l u i,
-  heap_ok S h -> hget h l = Some (HAny u i) -> forall t, sfind S l = Some t -> t = TAny.
+Theorem C02_any_cells_only_at_any : forall strict S h l u i,
+  heap_ok strict S h -> hget h l = Some (HAny u i) -> forall t, sfind S l = Some t -> t = TAny.
 Proof. exact any_cells_only_at_any. Qed.
 Print Assumptions C02_any_cells_only_at_any.
 
@@ -193,6 +203,10 @@ Theorem C02_soundness_full_refuted :
 Proof. exists ex_cyclic, 100%nat. vm_compute. split; [reflexivity|exact I]. Qed.
 Print Assumptions C02_soundness_full_refuted.
 
+(* it lies in the wide fragment: its crash is exactly the exception C02_soundness_modulo_overflow_partial makes *)
+Example C02_cyclic_in_s2 : s2_program ex_cyclic = true /\ s1_program ex_cyclic = false.
+Proof. vm_compute. split; reflexivity. Qed.
+
 Example C02_cyclic_outcome :
   fst (run_program 100 ex_cyclic s0_) = OErr (EHostCrash (s_ "stack overflow in String")).
 Proof. vm_compute. reflexivity. Qed.
@@ -208,7 +222,7 @@ Print Assumptions C02_early_call_is_an_evy_panic.
 Theorem C02_not_soundness_full : ~ soundness_full.
 Proof.
   intros H. destruct C02_soundness_full_refuted as (P & fuel & Hwt & Hbad).
-  exact (H P Hwt fuel s0_ (init_state_ok _ _ _ _) Hbad).
+  exact (H P Hwt fuel s0_ (init_state_ok _ _ _ _ _) Hbad).
 Qed.
 Print Assumptions C02_not_soundness_full.
 
